@@ -361,6 +361,8 @@ def check(chk):
                construct=u.func.ident if u.func is not None else u.relpath, text="loader clock")
     chk.ob("FLOW-6", "loader call sites examined", len(lv) >= 1, MV + ":1", nontrivial=False)
 
+    expiry_restart_is_written(chk, repo)
+
     # ------------------------------------------------------------ OWN-16
     n_s = 0
     for u in idx.uses("save"):
@@ -371,6 +373,27 @@ def check(chk):
                (u.relpath, u.scope) == (DM, "DataManager._writing_thread") or u.relpath.startswith("mpf/commands/") or u.relpath.startswith("mpf/core/config_loader")
                or "config" in u.scope.lower() or u.relpath.startswith("mpf/wire/"), u.where(), construct=u.ident, text="FileManager.save in " + u.scope)
     chk.expect(n_s >= 2, "C15: FileManager.save call sites lost")
+
+
+def expiry_restart_is_written(chk, repo, rule="FLOW-6"):
+    """Every set of an expiring machine variable restarts its expiry period *on disk*: on every path of set_machine_var on which the deadline
+    is re-computed the record is written - also when the value did not change (at boot the loader writes the records back without a deadline;
+    a value set to what it already was, e.g. the credit balance restored at start-up, would otherwise never get a deadline again)."""
+    sm = repo.func(MV, "MachineVariables.set_machine_var")
+    chk.analysed(sm)
+    cfg = sm.cfg()
+    dl = [n for n in cfg.nodes if n.kind == "stmt" and isinstance(n.ast, ast.Assign) and isinstance(n.ast.targets[0], ast.Subscript) and
+          const_value(n.ast.targets[0].slice) == "timeout"]
+    wr = [n.id for n, c in cfg.calls_named("_write_machine_var_to_disk")]
+    chk.need(len(dl) == 1 and wr, rule, "set_machine_var restarts the expiry and writes the record", sm)
+    from sa.helpers import feasible_paths
+    w = None
+    for pth, _fx in feasible_paths(cfg, cfg.entry.id, [cfg.exit.id]):
+        if dl[0].id in pth and not any(x in wr for x in pth[pth.index(dl[0].id):]):
+            w = pth
+            break
+    chk.ob(rule, "a restarted expiry deadline is written to disk on every path (also when the value is unchanged)", w is None, sm.where(dl[0].ast),
+           path=cfg.fmt_path(w, MV) if w else None, construct=sm.ident, text="expiry restart not written")
 
 
 def battery():
@@ -407,6 +430,7 @@ def battery():
         M("loaded sets come back as lists", YI, "        if isinstance(data, list):\n            return [YamlInterface.to_plain_dict(item) for item in data]", "        if isinstance(data, (list, tuple, set)):\n            return [YamlInterface.to_plain_dict(item) for item in data]", "TABLE-6"),
         M("stop during the start-up delay skips the flush", DM, "        time.sleep(self.min_wait_secs)\n        while not self.machine.thread_stopper.is_set():", "        if self.machine.thread_stopper.wait(self.min_wait_secs):\n            return\n        while not self.machine.thread_stopper.is_set():", "DEAD-4"),
         M("twin: interruptible waits without an early return", DM, "        time.sleep(self.min_wait_secs)\n        while not self.machine.thread_stopper.is_set():", "        self.machine.thread_stopper.wait(self.min_wait_secs)\n        while not self.machine.thread_stopper.is_set():", None),
+        M("unchanged expiring variable not re-written", MV, "        elif self.machine_vars[name][\"expire_secs\"]:\n            self._write_machine_var_to_disk(name)\n", "", "FLOW-6"),
     ]
 
 
